@@ -358,13 +358,25 @@ def build_replay(scratch, ob, vals, log_dir=None):
     """Compile the harness itself as ordinary Rust (cfg(verif_replay): kani::any() reads the concrete
     values, stubs are NOT applied so every callee is the real one) and run it. Returns (reproduced, output, source)."""
     lib = os.path.join(scratch, 'src/lib.rs')
-    entry = ('\n#[cfg(verif_replay)]\npub fn verif_replay_entry() {\n'
-             '    crate::verif_support::shim::set_values(vec![%s]);\n    crate::%s();\n}\n'
-             % (', '.join('vec![%s]' % ', '.join(str(b) for b in v) for v in vals), ob.full))
-    cur = open(lib).read()
-    cur = re.sub(r'\n#\[cfg\(verif_replay\)\]\npub fn verif_replay_entry\(\) \{.*?\n\}\n', '', cur, flags=re.S)
-    with open(lib, 'w') as f:
-        f.write(cur + entry)
+    target, prefix = TARGETS[ob.file]
+    local = ob.full[len(prefix):]
+    vals_txt = ', '.join('vec![%s]' % ', '.join(str(b) for b in v) for v in vals)
+    # the entry lives in the harness's own source file (its module may be private); lib.rs reaches it by symbol
+    entry = ('\n#[cfg(verif_replay)]\n#[no_mangle]\npub extern "Rust" fn verif_replay_entry_sym() {\n'
+             '    crate::verif_support::shim::set_values(vec![%s]);\n    %s();\n}\n' % (vals_txt, local))
+    glue = ('\n#[cfg(verif_replay)]\nextern "Rust" {\n    fn verif_replay_entry_sym();\n}\n'
+            '#[cfg(verif_replay)]\npub fn verif_replay_entry() {\n    unsafe { verif_replay_entry_sym() }\n}\n')
+    rx = r'\n#\[cfg\(verif_replay\)\]\n#\[no_mangle\]\npub extern "Rust" fn verif_replay_entry_sym\(\) \{.*?\n\}\n'
+    for fn_, (tgt, _) in TARGETS.items():
+        tp = os.path.join(scratch, tgt)
+        cur = open(tp).read()
+        new_cur = re.sub(rx, '', cur, flags=re.S)
+        if tgt == target:
+            new_cur += entry
+        if tgt == 'src/lib.rs' and 'fn verif_replay_entry()' not in new_cur:
+            new_cur += glue
+        if new_cur != cur:
+            open(tp, 'w').write(new_cur)
     rdir = os.path.join(scratch, 'verif_replay_runner')
     os.makedirs(os.path.join(rdir, 'src'), exist_ok=True)
     with open(os.path.join(rdir, 'Cargo.toml'), 'w') as f:
